@@ -87,11 +87,12 @@ class Res:
 
 
 class VecV:
-    __slots__ = ("items", "canonical")
+    __slots__ = ("items", "canonical", "dense")
 
-    def __init__(self, items, canonical=None):
+    def __init__(self, items, canonical=None, dense=False):
         self.items = items  # tuple of (guard, value); guards are absolute path conditions
         self.canonical = canonical  # for the iteration sequence of a HashSet: the same members in a content-determined order
+        self.dense = dense  # the present elements form a prefix (symbolic instance of a Vec: element k present iff len > k)
 
 
 class ArrayV(VecV):
@@ -1174,6 +1175,8 @@ class Machine:
                 return a > b
             if op == ">=":
                 return a >= b
+        if isinstance(a, int) and isinstance(b, int) and not isinstance(a, bool) and not isinstance(b, bool) and op in ("<<", ">>", "|", "&", "^"):
+            return {"<<": a << b, ">>": a >> b, "|": a | b, "&": a & b, "^": a ^ b}[op]
         raise Unsupported("binary %s on %s,%s" % (op, type(a).__name__, type(b).__name__))
 
     def equals(self, a, b):
@@ -1184,6 +1187,14 @@ class Machine:
             if other == "-":
                 return False   # the terminator is not a token (abstracted)
             raise Unsupported("comparison of remaining text with %r" % (other,))
+        for x, y in ((a, b), (b, a)):
+            al = getattr(x, "allowed", None)
+            if al is not None and isinstance(y, str) and len(y) == 1 and y not in al:
+                return False        # a symbolic character of a class that excludes the literal
+        if isinstance(a, Opt) and isinstance(b, Opt):
+            if a.val is None or b.val is None:
+                return And(Not(a.present), Not(b.present))
+            return Or(And(Not(a.present), Not(b.present)), And(a.present, b.present, self.equals(a.val, b.val)))
         if isinstance(a, StrZ) or isinstance(b, StrZ):
             return to_strz(a) == to_strz(b)
         if isinstance(a, FPV) or isinstance(b, FPV):
@@ -1676,6 +1687,8 @@ class Machine:
             if meth == "is_none":
                 return Not(recv.present)
             if meth == "unwrap_or":
+                if not is_sym(recv.present):
+                    return recv.val if (recv.present and recv.val is not None) else args[0]
                 return merge(B(recv.present), recv.val, args[0]) if recv.val is not None else args[0]
             if meth in ("unwrap", "expect"):
                 self.oblige(fr, guard, recv.present, "Option::%s on None (line %s)" % (meth, e.get("line")))
